@@ -1,5 +1,6 @@
 import Driver.Common
 import AslModel.Thread
+import AslModel.ThreadEnd
 /-! Model driver for C13: parallel_for index groups, thread kinds, semaphore ops, and the *acceptor* that
 replays a hook-point trace recorded from the real library on the `Handover` model. -/
 open Driver AslModel.Thread
@@ -29,11 +30,24 @@ def runToEnd (n : Nat) (cf : Bool) : Cfg :=
 
 def ones (l : List Nat) : String := ",".intercalate (l.map toString)
 
+open AslModel.ThreadCopies in
+/-- `finished()` as the harness reads it for the kinds that copy Thread objects: through a copy after the thread is over
+    (`cpy`, `sst`: a copy; `cpd`: the original destroyed first; `cpj`: copies made after join) -/
+def copiesFin (kind : String) : Nat :=
+  let acts : List Act :=
+    if kind == "cpd" then [Act.copy, Act.drop, Act.finish, Act.release]
+    else if kind == "cpj" then [Act.finish, Act.release, Act.copy, Act.copy, Act.copy]
+    else [Act.copy, Act.finish, Act.release]
+  match readFinished (run init acts) with
+  | some true => 1
+  | _ => 0
+
 def thr (kind : String) (n : Nat) : String :=
   let threads := if kind == "inv" then n - 1 else n
   let c := runToEnd threads (kind == "sub" || kind == "grp" || kind == "reap")
   let ran := (List.range threads).map c.ran
-  let fin := (List.range threads).map fun j => if c.finished j then 1 else 0
+  let viaCopy := kind == "cpy" || kind == "cpd" || kind == "cpj" || kind == "sst"
+  let fin := (List.range threads).map fun j => if viaCopy then copiesFin kind else if c.finished j then 1 else 0
   let (ran, fin) := if kind == "inv" then (1 :: ran, 1 :: fin) else (ran, fin)
   if c.cpos == Handover.CPos.done && c.bad.isNone then s!"ran={ones ran} fin={ones fin}" else "model-stuck"
 
